@@ -56,6 +56,7 @@ import (
 	"fmt"
 	"strings"
 	"sync"
+	"unicode"
 
 	goerrors "github.com/ajitpratap0/GoSQLX/pkg/errors"
 	"github.com/ajitpratap0/GoSQLX/pkg/models"
@@ -919,6 +920,27 @@ func (p *Parser) parseStringLiteral() string {
 	return value
 }
 
+// isBareKeywordWord reports whether the current token is a keyword written as
+// a bare word (letters, digits, underscores), i.e. something that could be a
+// name part where no keyword is possible. Literals and punctuation are not.
+func (p *Parser) isBareKeywordWord() bool {
+	switch p.currentToken.Type {
+	case models.TokenTypeString, models.TokenTypeSingleQuotedString, models.TokenTypeDollarQuotedString,
+		models.TokenTypeNumber, models.TokenTypePlaceholder, models.TokenTypeEOF:
+		return false
+	}
+	lit := p.currentToken.Literal
+	if lit == "" {
+		return false
+	}
+	for i, r := range lit {
+		if r != '_' && !unicode.IsLetter(r) && !(i > 0 && unicode.IsDigit(r)) {
+			return false
+		}
+	}
+	return true
+}
+
 // parseQualifiedName parses a potentially schema-qualified name (e.g., schema.table or db.schema.table).
 // Returns the full dotted name as a string. Supports up to 3-part names.
 func (p *Parser) parseQualifiedName() (string, error) {
@@ -931,7 +953,9 @@ func (p *Parser) parseQualifiedName() (string, error) {
 	// Check for schema.table or db.schema.table
 	for p.isType(models.TokenTypePeriod) {
 		p.advance() // Consume .
-		if !p.isIdentifier() && !p.isNonReservedKeyword() {
+		// After a dot only a name part can follow, so a keyword there is a
+		// name (information_schema.tables, s.key, db.user).
+		if !p.isIdentifier() && !p.isNonReservedKeyword() && !p.isBareKeywordWord() {
 			return "", p.expectedError("identifier after .")
 		}
 		name = name + "." + p.currentToken.Literal
